@@ -47,7 +47,15 @@ func main() {
 	scratch := c.Scratch()
 	results := make([]*runResult, nRuns)
 	raceOut := make([]string, nRuns)
+	nStress := nRuns
+	nRuns += c.Pick(6, 60) // directed schedules (release parked before the removal from the active versions)
+	results = make([]*runResult, nRuns)
+	raceOut = make([]string, nRuns)
 	core.Parallel(nRuns, 6, func(i int) {
+		runIdx := i
+		if i >= nStress {
+			runIdx = directedBase + (i - nStress)
+		}
 		dir := filepath.Join(scratch, fmt.Sprintf("r%04d", i))
 		_ = os.MkdirAll(dir, 0o755)
 		bin := ""
@@ -57,8 +65,8 @@ func main() {
 			bin = raceBin
 			env = append(env, "GORACE=halt_on_error=0 exitcode=0 log_path="+filepath.Join(dir, "race"))
 		}
-		res := core.RunChild(bin, []string{"run", strconv.Itoa(i), dir, c.Tier}, env, 5*time.Minute, filepath.Join(dir, "child.log"))
-		r := &runResult{Run: i}
+		res := core.RunChild(bin, []string{"run", strconv.Itoa(runIdx), dir, c.Tier}, env, 5*time.Minute, filepath.Join(dir, "child.log"))
+		r := &runResult{Run: runIdx}
 		data, err := os.ReadFile(filepath.Join(dir, "result.json"))
 		if err == nil {
 			err = json.Unmarshal(data, r)
